@@ -185,6 +185,9 @@ pub fn explore_all(
             rep.violation(format!("{}:{}", prop_prefix(prop), sig), format!("program {} [{}]: {}", prog.name, mode.label(), msg), case_json(prog, &choices));
         }
     }
+    // settings a program's name switched on do not outlive the exploration
+    crate::ops::set_staged_source(None);
+    crate::shim::set_dtype_unknown(false);
 }
 
 fn prop_prefix(prop: &str) -> &'static str {
